@@ -30,7 +30,7 @@ def H : Ser → List Char
       (refs.flatMap (fun r => natStr r ++ [','])) ++ ['>'])
   | .value v => '<' :: 'v' :: (natStr v ++ ['>'])
   | .rules s => '<' :: 'r' :: (s ++ ['>'])
-  | .explicit e => '<' :: 'e' :: (e ++ ['>'])
+  | .explicit n e => '<' :: 'e' :: (natStr n ++ '#' :: e ++ ['>'])
 
 def setDef (P : Prog) (n : Name) (d : Def) : Prog := (n, d) :: P.filter (fun p => p.1 != n)
 
